@@ -28,7 +28,7 @@ import (
 // of a universe x forms {Name, Name(), V.Name, V.Name()} x {value, pointer}; the oracle
 // is Go's own resolution through reflect.
 
-var c16Names = []string{"X", "Y", "x", "Fn", "M", "VM", "PM", "EM", "EPM", "EXi", "EXs", "EY", "Deep", "DeepY", "exi", "Xx", "Z", "vm"}
+var c16Names = []string{"X", "Y", "x", "Fn", "M", "VM", "PM", "EM", "EPM", "EXi", "EXs", "EY", "Deep", "DeepY", "exi", "Xx", "Z", "vm", "C16Marker", "C16Empty", "Mark"}
 
 func c16Compile(src string, ops ...expr.Option) (p *vm.Program, err error) {
 	defer func() {
@@ -119,6 +119,9 @@ func c16(r *report.Run) {
 	cases = append(append([]c16types.Case{}, cases...),
 		c16types.Case{Name: "C16Diamond", Decl: "struct{ C16L{C16Base}; C16R{*C16Base} }", Value: C16Diamond{C16L{C16Base{1, "y"}}, C16R{&C16Base{2, "z"}}}, Ptr: &C16Diamond{C16L{C16Base{1, "y"}}, C16R{&C16Base{2, "z"}}}},
 		c16types.Case{Name: "C16DiamondOwn", Decl: "struct{ C16L{C16Base}; C16R{*C16Base}; X string }", Value: C16DiamondOwn{C16L{C16Base{1, "y"}}, C16R{&C16Base{2, "z"}}, "own"}, Ptr: &C16DiamondOwn{C16L{C16Base{1, "y"}}, C16R{&C16Base{2, "z"}}, "own"}},
+		c16types.Case{Name: "C16Empty", Decl: "struct{}", Value: C16Empty{}, Ptr: &C16Empty{}},
+		c16types.Case{Name: "C16OnlyUnexported", Decl: "struct{ x int; y string }", Value: C16OnlyUnexported{1, "y"}, Ptr: &C16OnlyUnexported{1, "y"}},
+		c16types.Case{Name: "C16WithMarker", Decl: "struct{ C16Marker{hidden}; C16Empty; X int }", Value: C16WithMarker{C16Marker{1}, C16Empty{}, 2}, Ptr: &C16WithMarker{C16Marker{1}, C16Empty{}, 2}},
 		c16types.Case{Name: "C16SelfEmbed", Decl: "struct{ *C16SelfEmbed; X int }", Value: C16SelfEmbed{nil, 3}, Ptr: &C16SelfEmbed{nil, 3}},
 	)
 	var evals, accepted int64
@@ -442,6 +445,20 @@ type C16DiamondOwn struct {
 	C16L
 	C16R
 	X string
+}
+type C16Empty struct{}
+type C16OnlyUnexported struct {
+	x int
+	y string
+}
+type C16Marker struct{ hidden int }
+
+func (C16Marker) Mark() int { return 9 }
+
+type C16WithMarker struct {
+	C16Marker
+	C16Empty
+	X int
 }
 type C16SelfEmbed struct {
 	*C16SelfEmbed
